@@ -15,6 +15,21 @@ fn item(id: &str, v: &Val, n: i32) -> Tag24<IssuerSignedItem> {
         Val::F => ciborium::Value::Bool(false),
         Val::Other => ciborium::Value::Integer(1.into()),
     };
+    if n % 2 == 1 {
+        // a foreign issuer's encoding: other key order, non-minimal integer head; the device must
+        // hand back exactly these bytes
+        let m = ciborium::Value::Map(vec![
+            (ciborium::Value::Text("elementValue".into()), value),
+            (ciborium::Value::Text("elementIdentifier".into()), ciborium::Value::Text(id.to_string())),
+            (ciborium::Value::Text("random".into()), ciborium::Value::Bytes(vec![n as u8; 16])),
+        ]);
+        let mut bytes = vec![];
+        ciborium::ser::into_writer(&m, &mut bytes).unwrap();
+        // turn the 3-entry map into a 4-entry one and append digestID with a 2-byte head
+        bytes[0] = 0xa4;
+        bytes.extend_from_slice(&[0x68, b'd', b'i', b'g', b'e', b's', b't', b'I', b'D', 0x19, 0x00, (n & 0xff) as u8]);
+        return Tag24::from_bytes(bytes).unwrap();
+    }
     Tag24::new(IssuerSignedItem {
         digest_id: DigestId::new(n),
         random: ByteStr::from(vec![n as u8; 16]),
@@ -69,7 +84,9 @@ fn one(ctx: &mut Ctx, tag: &str, req: &str, held: &[(String, Val)]) {
 
     // Spec(real): only inside the property's domain (request age_over_NN, holdings age_over_NN
     // two digits with boolean values next to unrelated identifiers).
-    let wf_id = |s: &str| s.len() == 11 && s.starts_with("age_over_") && s[9..].bytes().all(|b| b.is_ascii_digit());
+    // domain of the theorem: every identifier containing `age_over` is `age_over_<u8>` (harness-side
+    // parse with Rust's own `u8::from_str`, independent of the library function) with a boolean value
+    let wf_id = |s: &str| s.starts_with("age_over_") && s[9..].parse::<u8>().is_ok();
     let in_domain = wf_id(req)
         && sorted.iter().all(|(k, v, _)| if k.contains("age_over") { wf_id(k) && !matches!(v, Val::Other) } else { true });
     if in_domain {
@@ -155,9 +172,9 @@ pub fn run(ctx: &mut Ctx) {
     }
     // 4. outside the domain: equal ages through `+NN`/`0NN` spellings (ties), non-boolean values,
     //    malformed holdings, malformed requests.  Correspondence only.
-    let edge_ids = ["age_over_21", "age_over_021", "age_over_+21", "age_over_0021", "age_over_18", "age_over_+18",
+    let edge_ids = ["age_over_21", "age_over_021", "age_over_+21", "age_over_0021", "age_over_18", "age_over_+18", "age_over_5", "age_over_8", "age_over_3", "age_over_100", "age_over_9",
                     "age_over_65", "age_over_2x", "xage_over_30", "age_over_", "age_over_256", "age_over_255", "age_overt"];
-    let edge_reqs = ["age_over_21", "age_over_+21", "age_over_20", "age_over_18", "age_over_255", "age_over_0", "age_over_2x",
+    let edge_reqs = ["age_over_21", "age_over_+21", "age_over_20", "age_over_18", "age_over_3", "age_over_4", "age_over_9", "age_over_19", "age_over_99", "age_over_255", "age_over_0", "age_over_2x",
                      "ageover_21", "age_over_256", "age_over_"];
     let rounds = if ctx.thorough { 40_000 } else { 3_000 };
     for _ in 0..rounds {
